@@ -49,7 +49,9 @@ structure Field where
   pinned : List String      -- allow-list: the only functions that may write it (construction, call-scoped) /
                             -- that may STORE into it (derived: a write that is not a plain reset)
   /-- derived fields, computed: the functions that store into the field (index assignment, a value that
-  is not fresh, delete, append) and are neither pinned nor helpers only called from a pinned function -/
+  is not fresh, delete, append) and are neither pinned nor helpers only called from a pinned function;
+  and `caller -> writer` for a writing - also merely resetting - function that is called on a path which
+  does not start at `Modules.Process` or a pinned function (derived state disposed of on the load path) -/
   stray : List String := []
   deriving Repr, Inhabited
 
